@@ -5,6 +5,12 @@
 (*       (up to MaxLen dimensions each) x every binary operator: depth 1.  *)
 (*   Scenario "hist":  from a given pair, every history of in-place and    *)
 (*       out-of-place operations up to Depth (exhaustive, or -simulate).   *)
+(*   Scenario "closure": NO depth bound.  Registers hold duplicate-free    *)
+(*       sequences over a finite alphabet, so the state space is finite;   *)
+(*       with the history variables hidden (VIEW ClosureView) TLC visits   *)
+(*       every state reachable by histories of ANY length from every       *)
+(*       initial pair and checks the invariant and the action property on  *)
+(*       every transition: C14's "for all histories" by exhaustion.        *)
 (* Alphabet: A, B, C, D and the clashing variants A2 (letter a) and        *)
 (* B2 (letter b) with other names and item counts, and A3: the NAME of A   *)
 (* with the LETTER of B (names and letters are independent attributes).    *)
@@ -32,7 +38,9 @@ vars == <<ds, arrdims, last, hist>>
 S0 == SelectSeq(<<S1, S2, S3>>, LAMBDA x : x # "")
 T0 == SelectSeq(<<T1, T2, T3>>, LAMBDA x : x # "")
 
-Init == /\ IF Scenario = "pairs"
+Init == /\ IF Scenario = "closure"
+           THEN \E t \in AllDimSets(MaxLen) : ds = [r \in MCRegs |-> CASE r = "r1" -> <<>> [] r = "r2" -> t [] OTHER -> None]
+           ELSE IF Scenario = "pairs"
            THEN \E s \in AllDimSets(MaxLen), t \in AllDimSets(MaxLen) : ds = [r \in MCRegs |-> CASE r = "r1" -> s [] r = "r2" -> t [] OTHER -> None]
            ELSE ds = [r \in MCRegs |-> CASE r = "r1" -> S0 [] r = "r2" -> T0 [] OTHER -> None]
         /\ arrdims = None
@@ -70,9 +78,10 @@ Act == IF Scenario = "pairs" THEN PairActions ELSE HistActions
 Rec == [op |-> last'.op, recv |-> last'.recv, dst |-> last'.dst, inplace |-> last'.inplace, args |-> last'.args,
         outcome |-> last'.outcome,
         pre |-> [r \in MCRegs |-> ds[r]], post |-> [r \in MCRegs |-> ds'[r]], arrdims |-> arrdims']
-Next == /\ Len(hist) < Depth
+Next == /\ (Scenario = "closure" \/ Len(hist) < Depth)
         /\ Act
-        /\ hist' = Append(hist, Rec)
+        /\ hist' = IF Scenario = "closure" THEN hist ELSE Append(hist, Rec)
+ClosureView == <<ds, arrdims>>
 Spec == Init /\ [][Next]_vars
 
 AlphabetJson == {<<d, MCLetterOf[d], MCNameOf[d], MCSizeOf[d]>> : d \in MCDim}
